@@ -158,7 +158,9 @@ func runC10(r *core.Run) {
 			return
 		}
 	}
-	pre := a.CheckHealth(a.Now)
+	// (through freshly created objects: the probe must not warm up whatever a long-lived authority's
+	// own objects remember — the rotation under test is the first thing they do after bootstrap)
+	pre := a.CheckDurableHealth(a.Now)
 	if !pre.Healthy() {
 		r.HarnessErr = fmt.Sprintf("authority unhealthy before the rotation under test (%s): %s", cfg, pre)
 		return
